@@ -10,6 +10,7 @@ import HipVerif.Lemmas.CoreRun
 import HipVerif.Lemmas.CoreExtraA
 import HipVerif.Audit.Reexport
 import HipVerif.Gen.FmtDelegates
+import HipVerif.Lemmas.CoreStrRefine
 
 namespace HipVerif.Props.C01
 open HipVerif.Core HipVerif.Spec.Std
@@ -96,5 +97,32 @@ example : AllOk demoCfg (init [] 4) demoOps := by
 
 example : ((run demoCfg (init [] 4) demoOps).2.map (fun o => o.ret)).all (· != .badOp) = true := by
   decide
+
+/-! ### The `HipStr` layer refines `String` (Spec/Str.lean, Lemmas/CoreStrRefine.lean) -/
+
+/-- One `HipStr` call: for every call a Rust program can make (`StrOk`: range bounds are `usize`s and lengths at most
+`isize::MAX`) on a well-formed state holding only valid UTF-8, the API layer — the code's boundary / `from_utf8` checks
+followed by the byte-level operation on the shared / offset / inline / borrowed representation — yields EXACTLY the pool
+contents and the returned item `String`/`str` yield (`Spec.Str.step`): the popped scalar's bytes, the `SliceError`
+payload and classification, `valid_up_to`, and a panic in the same cases. -/
+reexport HipVerif.Str.strStep_refines as str_step_refines
+
+/-- Every finite history of `HipStr` calls from the initial state: at the end every value reads back what the same
+calls yield on `String`s, and every returned item along the way was equal. The side condition `AllStrOk` is about
+argument TYPES only (`&str` data valid, `char`s scalar, bounds `usize`), never about char boundaries. -/
+reexport HipVerif.Str.strRun_refines_init as str_run_refines
+
+/-- …and from any well-formed state holding valid UTF-8. -/
+reexport HipVerif.Str.strRun_refines as str_run_refines_from
+
+/-- A `HipStr` call panics — in the layer's own checks or in the byte-level operation under it — exactly where the
+`String` specification of that call panics. -/
+reexport HipVerif.Str.str_panic_iff as str_panic_iff
+
+/-- non-vacuity: a 10-call history (ill-formed `from_utf8`, off-boundary `try_slice`/`truncate`, `pop`, `push`, `slice`,
+`clone`) satisfies the side conditions, and model and specification compute the same explicit result -/
+reexport HipVerif.Str.Example.ops_ok as str_example_ok
+reexport HipVerif.Str.Example.model_result as str_example_model
+reexport HipVerif.Str.Example.spec_result as str_example_spec
 
 end HipVerif.Props.C01
